@@ -112,14 +112,46 @@ def kf_consts(text):
     return ''.join('#[allow(dead_code)] pub const KF_%s: bool = %s;\n' % (i, 'true' if i in open_ids else 'false') for i in ids)
 
 
-def replay_entry(unit):
-    names = [h.name for h in unit.harnesses]
+def replay_entry(unit, keep=None):
+    names = [h.name for h in unit.harnesses if keep is None or h.name in keep]
     tbl = ', '.join('("%s", %s as fn())' % (n, n) for n in names)
     return ('\n#[cfg(all(test, not(kani)))]\n#[test]\nfn rbverif_replay_entry_%s() {\n    vs::replay_main(&[%s]);\n}\n'
             % (unit.name, tbl))
 
 
-def prepare(unit, scratch):
+def strip_harnesses(text, keep):
+    """remove the `harness!(name, ..)` invocations whose name is not in `keep` (cost only: Kani compiles every
+    harness of the crate; a run for one property/tier compiles only the obligations it is going to check)"""
+    if keep is None:
+        return text
+    from .rustlex import lex, sig, match_close
+    st = sig(lex(text))
+    cuts = []
+    i = 0
+    while i + 3 < len(st):
+        t = st[i]
+        if t.kind == 'ident' and t.text in ('harness', 'harness_cvc5') and st[i + 1].text == '!' and st[i + 2].text == '(' \
+                and st[i + 3].kind == 'ident' and (i == 0 or st[i - 1].text != 'macro_rules'):
+            k = match_close(st, i + 2)
+            end = st[k].end
+            if k + 1 < len(st) and st[k + 1].text == ';':
+                end = st[k + 1].end
+            if st[i + 3].text not in keep:
+                cuts.append((t.start, end))
+            i = k + 1
+            continue
+        i += 1
+    out = []
+    pos = 0
+    for a, b in cuts:
+        out.append(text[pos:a])
+        out.append('/* harness not selected for this run */')
+        pos = b
+    out.append(text[pos:])
+    return ''.join(out)
+
+
+def prepare(unit, scratch, keep=None):
     """materialise the unit in the scratch copy. Returns dict(workdir, pkg, sha_before) or raises AnchorLost-like"""
     support = open(SUPPORT).read()
     if unit.kind == 'kani_ext':
@@ -130,8 +162,8 @@ def prepare(unit, scratch):
         ct = open(os.path.join(dst, 'Cargo.toml')).read().replace('@SCRATCH@', scratch.repo)
         open(os.path.join(dst, 'Cargo.toml'), 'w').write(ct)
         shutil.copy(SUPPORT, os.path.join(dst, 'src', 'verif_support.rs'))
-        lib = open(os.path.join(dst, 'src', 'lib.rs')).read()
-        lib += '\n' + kf_consts(lib) + replay_entry(unit)
+        lib = strip_harnesses(open(os.path.join(dst, 'src', 'lib.rs')).read(), keep)
+        lib += '\n' + kf_consts(lib) + replay_entry(unit, keep)
         open(os.path.join(dst, 'src', 'lib.rs'), 'w').write(lib)
         lock = os.path.join(scratch.repo, 'Cargo.lock')
         if os.path.exists(lock):
@@ -145,9 +177,9 @@ def prepare(unit, scratch):
     if marker in orig:
         return {'workdir': scratch.repo, 'pkg': unit.crate, 'sha_before': None}
     sha = hashlib.sha256(orig.encode()).hexdigest()
-    body = re.sub(r'^(\s*)//!', r'\1//', unit.text, flags=re.M)
+    body = strip_harnesses(re.sub(r'^(\s*)//!', r'\1//', unit.text, flags=re.M), keep)
     mod = ('\n%s\n#[cfg(any(kani, rbverif_replay))]\n#[allow(unused_imports, dead_code, unused_variables, unused_mut, clippy::all)]\n'
-           'mod %s {\n    use super::*;\n%s\n%s\n%s\n%s}\n' % (marker, unit.mod_name(), support, body, kf_consts(body), replay_entry(unit)))
+           'mod %s {\n    use super::*;\n%s\n%s\n%s\n%s}\n' % (marker, unit.mod_name(), support, body, kf_consts(unit.text), replay_entry(unit, keep)))
     open(target, 'w').write(orig + mod)
     return {'workdir': scratch.repo, 'pkg': unit.crate, 'sha_before': sha}
 
